@@ -107,19 +107,22 @@ func raceKey(text string) (key string, report string, ok bool) {
 			if bi >= 2 {
 				break
 			}
+			// the access is attributed to the first frame that is neither the Go runtime nor a simulator shim:
+			// SUT code (a Manticore package) or harness code
 			site := ""
 			for _, ln := range strings.Split(b, "\n") {
 				m := funcLine.FindStringSubmatch(ln)
 				if m == nil {
 					continue
 				}
-				if strings.Contains(m[1], "TheManticoreProject/Manticore/") {
-					fn := m[1]
-					fn = fn[strings.LastIndex(fn, "/")+1:]
-					// closures: llmnr.(*Server).Serve.func1 -> keep
-					site = fn
-					break
+				fn := m[1]
+				if strings.HasPrefix(fn, "runtime.") || strings.HasPrefix(fn, "verif.local/sim/") || strings.HasPrefix(fn, "io.") || strings.HasPrefix(fn, "bytes.") || strings.HasPrefix(fn, "encoding/") {
+					continue
 				}
+				if strings.Contains(fn, "TheManticoreProject/Manticore/") {
+					site = strings.TrimSuffix(fn[strings.LastIndex(fn, "/")+1:], "-fm")
+				}
+				break
 			}
 			sites = append(sites, site)
 		}
